@@ -727,7 +727,7 @@ def c09(tier):
 
 @check("C10")
 def c10(tier):
-    return broker_check("C10", tier, [("SessSpec", "cover", 5, 6, "mockSuccess"), ("SessSpec", "paths", 4, 4, "mockSuccess")], {"C10", "C01", "C07"},
+    return broker_check("C10", tier, [("SessSpec", "cover", 6, 7, "mockSuccess"), ("SessSpec", "paths", 4, 4, "mockSuccess")], {"C10", "C01", "C07"},
                         "configuration session: connect (CleanSession 0/1) / subscribe / unsubscribe / DISCONNECT / cut over two client ids and two slots, probe "
                         "publishes; SessionPresent and deliveries to restored subscriptions compared.")
 
